@@ -26,6 +26,35 @@ va_list of the same shapes to a consumer built by the other / the same compiler.
 item, the first four followers and the both/none fillers; thorough the whole product.
 A separate family uses asm callees/callers that leave noise in the bits the ABI leaves undefined (narrow return
 values, narrow arguments) and compares chibicc-compiled consumers with gcc-compiled ones.
+Stage N (aggregates among the NAMED parameters of a variadic callee, passed in registers as well as in memory): named list =
+pre + [item] + post with item in {one aggregate per (size, eightbyte classes) shape, struct{char[n]} for every n in 1..16,
+struct{float}/{float,float}/{float x3}/{float x4}/{double}/{double,double}/{int,int}/{int,float}/{float,int}/{double,int}/
+{long,double}/{double,long}/{short}/{int x3}, unions {float,int} {double,long} {float[2],int[2]}, MEMORY struct{char[17]}
+struct{char[24]} {long x3} {double x3}, x87 {long double} {double,long double}}, pre in {-, int, double, long x4 (thorough: +
+long+double, long x5, double x7, long x5+double x7, long x6+double x8)}, post in {-, int, double (thorough: + long+double,
+struct{int,int}, struct{float,float})}; followed by one of three tails of 19-21 unnamed arguments drawn by va_arg - integer,
+floating, 8/16-byte INTEGER / SSE / mixed structs while registers remain and after both register files are exhausted (every tail
+holds >= 8 GP and >= 10 SSE eightbytes), then long double and MEMORY structs; also with the hidden return pointer in %rdi and with
+the va_list handed to a consumer built by the other / the same compiler.  quick: tail "i" for all 12 (pre, post) pairs, tails
+"d"/"s" and the hidden-pointer variant for the pairs (-,-) and (int,double); thorough: the whole product.
+Stage Z (size-dependent lowering of aggregate copies): struct{char[n]}, and for n % 8 == 0 struct{long[n/8]} and a union of both,
+for n in {48,64,65,96,127,128,129,130,192,200,255,256,257,512,1000,1024,2048,4096} (thorough: every n in 41..300, 511..513, 1000,
+1023..1025, 2047..2049, 4095, 4096): by value + returned, twice on the stack between other stack arguments, as the result of an
+inner call, fetched by va_arg, as named parameter of a variadic callee (+ under pending temporaries / without prototype / behind a
+GP argument).  The thunk's %rax == hidden pointer check and all value bytes apply as everywhere; sizes 1..40 are in VS/WS/M.
+Failures of aggregates beyond 64 bytes share the class `struct65+[MEMORY]` in the signature.
+Family R (psABI 3.2.3 "Returning of Values": the result area of a MEMORY-class return must not overlap any object visible to the
+callee; C: the value of the call is produced before the assigned-to object changes): callers `x = f(&x)`, `x = (f(&x))`,
+`x = (0, f(&x))`, `x = c ? f(&x) : x`, `y = x = f(&x)`, `T x = f(&x)`, `x = f(&o, &x)`, `x = f(&x, &o)`, `x = f(&x, &x)`, `x = f(x)`,
+`s.m = f(&s.m)`, `a[i] = f(&a[i])`, `a[0] = f(a)`, `g = f(&g)`, static local, `*p = f(p)`, pointer saved in a global beforehand,
+a parameter as x, call through a function pointer, through a chibicc-compiled forwarding function, and `y = f(&x)` (control),
+compiled by chibicc and by gcc -O0, for T = struct{unsigned char[n]} n in 17..40, 48, 64, 100, 127, 128, 129, 136, 200, 256, 1024
+(thorough: 17..300, 511..513, 1024, 2048, 4096) and struct{long[n/8]} / union forms for n % 8 == 0, against five callee builds of the
+same six functions: a hand-written asm callee that stores the whole result area first and reads its operands afterwards (rd) or
+overwrites *p after building the result (wr) - deterministic, independent of any optimiser - and the C text compiled by gcc -O0,
+-O2, -Os (-Os builds the result in place: tree-nrv) and by the chibicc under test.  Judged only where the model (computed in the
+driver) and the gcc-compiled caller agree (gcc 12 itself receives `T x = f(&x)` directly in x: counted, not judged).  The driver
+self-test enters every callee with result area == *p and requires the asm callee to be sensitive to it (vacuity guard).
 """
 import os, re, itertools, shutil
 from vlib import core, twin
@@ -33,7 +62,7 @@ from models import c06_abi as abi
 from models.c06_abi import P
 
 LEVEL = "exploration"
-BUDGET = {"quick": 420, "thorough": 3600}
+BUDGET = {"quick": 900, "thorough": 5400}
 
 HARNESS = os.path.join(core.VERIF, "harness")
 CFGNAME = {0: "cc->gcc", 1: "gcc->cc", 2: "cc->cc", 3: "gcc->gcc"}
@@ -163,6 +192,91 @@ def vs_named_lists(tier):
                     nm = tuple([CA(21)] + pre + [t])         # an odd-sized stack parameter FIRST, registers filled after it
                     if nm not in seen:
                         seen.add(nm); out.append((list(nm), len(pre) + 1))
+    return out
+
+
+# ---- stage N: by-value aggregates among the NAMED parameters of a variadic callee ------------------------------------
+# every (size, eightbyte classes) shape + struct{char[n]} for every n in 1..16 + SSE / mixed / union forms + MEMORY and x87 ones
+def n_items(reps):
+    out = []
+    for t in list(reps) + [CA(n) for n in range(1, 17)] + [S(F), S(F, F), S(F, F, F), S(F, F, F, F), S(D), S(D, D), S(I, I), S(I, F), S(F, I),
+                                                          S(D, I), S(L, D), S(D, L), S(SH), S(I, I, I), U(F, I), U(D, L), U(A(F), A(I)),
+                                                          CA(17), CA(24), S(L, L, L), S(D, D, D), S(LD), S(D, LD)]:
+        if t not in out:
+            out.append(t)
+    return out
+
+
+# named scalars in front of / behind the aggregate (the aggregate is first, in the middle, last; one list leaves it 0-2 GP
+# registers, thorough adds the lists that leave it exactly one GP / one SSE register and none)
+N_PRE = [[], [INT], [DOUBLE], [LONG] * 4, [LONG, DOUBLE], [LONG] * 5, [DOUBLE] * 7, [LONG] * 5 + [DOUBLE] * 7, [LONG] * 6 + [DOUBLE] * 8]
+N_POST = [[], [INT], [DOUBLE], [LONG, DOUBLE], [S(I, I)], [S(F, F)]]
+# unnamed arguments: integer, floating and struct va_args drawn while registers remain (the named list leaves up to 6 GP /
+# 8 SSE) and after both files are exhausted (each tail holds >= 8 GP and >= 10 SSE eightbytes), then MEMORY / x87 ones
+N_TAILS = {
+    "i": [INT, DOUBLE, LONG, S(I, I), DOUBLE, PTR, S(F, F), S(L, D), INT, LONG, LONG, DOUBLE, DOUBLE, DOUBLE, DOUBLE, DOUBLE, DOUBLE,
+          LDOUBLE, S(L, L, L), INT, DOUBLE],
+    "d": [DOUBLE, S(D, D), INT, S(L, L), DOUBLE, LONG, S(F, F, F), INT, S(D, L), DOUBLE, DOUBLE, LONG, LONG, DOUBLE, DOUBLE, S(L, L),
+          S(D, D), LDOUBLE, LONG, DOUBLE],
+    "s": [S(I, I), S(F, F), CA(3), S(L, D), S(C), LONG, DOUBLE, S(L, L), S(D, D), INT, INT, DOUBLE, DOUBLE, DOUBLE, DOUBLE, DOUBLE,
+          CA(21), LONG, DOUBLE],
+}
+NARG_MAX = 28
+
+
+def n_sigs(tier, reps):
+    quick = tier == "quick"
+    out = []
+    pres, posts = (N_PRE[:4], N_POST[:3]) if quick else (N_PRE, N_POST)
+    for t in n_items(reps):
+        for pi, pre in enumerate(pres):
+            for qi, post in enumerate(posts):
+                nm = pre + [t] + post
+                corner = (pi, qi) in ((0, 0), (1, 2))
+                for tk in "ids":
+                    if quick and tk != "i" and not corner:
+                        continue
+                    tail = N_TAILS[tk][:NARG_MAX - len(nm)]
+                    out.append(Sig(nm + tail, INT, len(pre), "N", nnamed=len(nm)))
+                    if corner or (not quick and qi < 3):     # the hidden return pointer takes the first GP register
+                        out.append(Sig(nm + tail[:NARG_MAX - 1 - len(nm)], S(L, L, L), len(pre), "N", nnamed=len(nm)))
+                # the va_list is handed to a consumer built by the other / the same compiler (vprintf style)
+                if (pi, qi) in ((0, 0), (1, 0), (0, 1)) or not quick:
+                    for cx in ("vfwdO", "vfwdS"):
+                        out.append(Sig(nm + N_TAILS["i"][:NARG_MAX - len(nm)], INT, len(pre), "N", nnamed=len(nm), ctx=cx))
+    return out
+
+
+# ---- stage Z: aggregates beyond the sizes of the other stages (size-dependent lowering of copies) ---------------------
+Z_SIZES_QUICK = [48, 64, 65, 96, 127, 128, 129, 130, 192, 200, 255, 256, 257, 512, 1000, 1024, 2048, 4096]
+Z_SIZES_THOROUGH = sorted(set(range(41, 301)) | {511, 512, 513, 1000, 1023, 1024, 1025, 2047, 2048, 2049, 4095, 4096})
+
+
+def LA(n): return ("s", (("a", L, n),))          # struct { long m0[n]; }
+def z_types(n, tier):
+    ts = [CA(n)]
+    if n % 8 == 0:
+        ts.append(LA(n // 8))
+        if tier != "quick" or n in (64, 128, 256):
+            ts.append(U(("a", C, n), ("a", L, n // 8)))
+    return ts
+
+
+def z_sigs(tier):
+    quick = tier == "quick"
+    out = []
+    full = [LONG] * 6 + [DOUBLE] * 8
+    for n in (Z_SIZES_QUICK if quick else Z_SIZES_THOROUGH):
+        for t in z_types(n, tier):
+            out.append(Sig([t, LONG], t, 0, "Z"))                                   # by value and returned
+            out.append(Sig(full + [t, INT, t, LONG], INT, 14, "Z"))                 # twice on the stack, between other stack arguments
+            out.append(Sig([t, LONG], t, 0, "Z", ctx="A0"))                         # the argument is the result of an inner call
+            out.append(Sig([INT, t, LONG, DOUBLE], INT, 1, "Z", nnamed=1))          # fetched by va_arg
+            out.append(Sig([t, INT, DOUBLE], t, 0, "Z", nnamed=1))                  # named parameter of a variadic callee, returned
+            if not quick or n in (128, 129, 256):
+                out.append(Sig([INT, t, DOUBLE], t, 1, "Z"))
+                out.append(Sig([LONG, t], t, 1, "Z", ctx="L2"))                     # call under pending temporaries
+                out.append(Sig([LONG, t], t, 1, "Z", ctx="noproto"))
     return out
 
 
@@ -311,10 +425,12 @@ def gen_sigs(tier):
             for r in (INT, S(L, L, L)) if quick else (INT, DOUBLE, S(L, D), S(L, L, L), LDOUBLE):
                 for cx in ctxs:
                     sigs.append(Sig([LONG] * g + [DOUBLE] * s + [t, LONG], r, g + s, "X", ctx=cx))
+    sigs += n_sigs(tier, reps)
+    sigs += z_sigs(tier)
     # dedupe (stable)
     seen, out = set(), []
     for sg in sigs:
-        if len(sg.args) > 28:
+        if len(sg.args) > NARG_MAX:
             continue
         k = sg.key()
         if k not in seen:
@@ -331,7 +447,7 @@ UNIT_HEAD = r'''
 #define OTHERRAW(x) VP_C3(OPFX,x,)
 #define SAMERAW(x) VP_C3(PFX,x,)
 #include <stdarg.h>
-extern unsigned char vp_arg[][64], vp_cap[][64], vp_retsrc[], vp_retdst[];
+extern unsigned char vp_arg[][VP_SLOT], vp_cap[][VP_SLOT], vp_retsrc[], vp_retdst[];
 extern volatile int vp_ncall, vp_nid;
 extern volatile long vp_one, vp_x[3], vp_sink;
 extern volatile double vp_done, vp_dx[3], vp_dsink;
@@ -411,8 +527,10 @@ def build_batch(sigs):
             if m.group(1): dsink = 1.0 + sum([0.5, 0.25, 0.125][:k])
             else: sink = 1 + sum([10, 100, 1000][:k])
         _, _, nvec = abi.assign(sg.args, sg.ret)
-        rows.append("{%d,%d,%d,%d,%d,%d,%d,%s,{%s}}" % (len(at), tid[sg.ret] if sg.ret else -1, nvec, 1 if var or sg.ctx == "noproto" else 0, nid,
-                                                        1 if abi.ret_where(sg.ret) == "memory" else 0, sink, repr(dsink),
+        # dead stack scrubbed before the test: room for the by-value copies / temporaries of large aggregates
+        extra = 6 * sum(abi.layout(t)[0] for t in sg.args + ((sg.ret,) if sg.ret else ()) if abi.layout(t)[0] > 64)
+        rows.append("{%d,%d,%d,%d,%d,%d,%d,%d,%s,{%s}}" % (len(at), tid[sg.ret] if sg.ret else -1, nvec, 1 if var or sg.ctx == "noproto" else 0, nid,
+                                                        1 if abi.ret_where(sg.ret) == "memory" else 0, extra, sink, repr(dsink),
                                                      ",".join(str(tid[a]) for a in sg.args) or "0"))
         calls.append("{t_cc_r_%d,t_ref_r_%d,t_cc_s_%d,t_ref_s_%d}" % (n, n, n, n))
         for p in ("cc_", "ref_"):
@@ -431,13 +549,20 @@ def build_batch(sigs):
         asm.append("    .globl %s\n%s: lea %s(%%rip), %%r10\n    jmp vp_thunk" % (s, s, s[2:]))
     asm.append('    .section .note.GNU-stack,"",@progbits')
     tys = []
+    slot = 64
     for t, i in sorted(tid.items(), key=lambda kv: kv[1]):
         size, mask = abi.value_mask(t)
+        if size > 64:
+            if len(mask) != size:
+                raise core.HarnessError("aggregate of more than 64 bytes with padding: " + abi.tname(t))
+            slot = max(slot, (size + 64 + 63) // 64 * 64)
+            mask = []
         bits = sum(1 << o for o in mask)
         tys.append("{%d,0x%xUL,%d}" % (size, bits, 1 if t == P("bool") else 0))
-    d = ["#define VP_NSIG %d" % len(sigs),
+    unit = "#define VP_SLOT %d\n" % slot + unit
+    d = ["#define VP_NSIG %d" % len(sigs), "#define VP_SLOT %d" % slot,
          "struct vp_ty { int size; unsigned long mask; int isbool; };",
-         "struct vp_sg { short nargs, ret, nvec, variadic, nid, retmem; long sink; double dsink; short arg[32]; };",
+         "struct vp_sg { short nargs, ret, nvec, variadic, nid, retmem; long scrub, sink; double dsink; short arg[32]; };",
          "static const struct vp_ty VP_TY[] = {%s};" % ",\n".join(tys),
          "static const struct vp_sg VP_SG[] = {\n%s};" % ",\n".join(rows)]
     for n in range(len(sigs)):
@@ -469,6 +594,23 @@ def _compile_cc(chibicc, wd, unit):
         f.write(unit)
     _C.chibicc = chibicc
     return twin.cc_compile(_C, p, os.path.join(wd, "cc.o"), ["-DPFX=cc_", "-DOPFX=ref_"], cwd=wd)
+
+
+def _tool(argv, cwd, timeout):
+    """gcc / as invocation of the harness; a tool process killed from outside (SIGTERM/SIGKILL on the shared machine) is retried."""
+    for attempt in range(3):
+        st, o, e = core.run_limited(argv, cwd=cwd, timeout=timeout)
+        if st not in (-15, -9):
+            break
+    return st, o, e
+
+
+def _ref_compile(src, obj, flags, cwd):
+    for attempt in range(3):
+        ok, err = twin.ref_compile(src, obj, flags, cwd=cwd)
+        if ok or err.strip():
+            break
+    return ok, err
 
 
 def _run_drv(exe, wd, first=None, count=None, timeout=300):
@@ -524,19 +666,18 @@ def _run_batch(a):
         return res
     res["nsig"] = len(live)
     # 2. reference side, stubs, driver
-    ok, err = twin.ref_compile(os.path.join(wd, "unit.c"), os.path.join(wd, "ref.o"), ["-DPFX=ref_", "-DOPFX=cc_"], cwd=wd)
+    ok, err = _ref_compile(os.path.join(wd, "unit.c"), os.path.join(wd, "ref.o"), ["-DPFX=ref_", "-DOPFX=cc_"], cwd=wd)
     if not ok:
         res["harness"] = "gcc rejects the unit: " + err[-1500:]
         return res
     with open(os.path.join(wd, "stubs.S"), "w") as f: f.write(stubs)
     with open(os.path.join(wd, "driver.c"), "w") as f: f.write(drv)
-    st, o, e = core.run_limited(["gcc", "-c", "-o", "stubs.o", "stubs.S"], cwd=wd, timeout=300)
+    st, o, e = _tool(["gcc", "-c", "-o", "stubs.o", "stubs.S"], wd, 300)
     if st != 0:
         res["harness"] = "stubs: " + e[-500:]; return res
-    st, o, e = core.run_limited(twin.GCC_DRV + ["-o", "drv", "driver.c", "cc.o", "ref.o", "stubs.o", thunk_o, "-no-pie", "-Wl,-z,noexecstack"],
-                                cwd=wd, timeout=600)
+    st, o, e = _tool(twin.GCC_DRV + ["-o", "drv", "driver.c", "cc.o", "ref.o", "stubs.o", thunk_o, "-no-pie", "-Wl,-z,noexecstack"], wd, 600)
     if st != 0:
-        res["harness"] = "driver link: " + e[-1500:]; return res
+        res["harness"] = "driver link: status=%s %s" % (st, e[-1500:]); return res
     exe = os.path.join(wd, "drv")
     # 3. run; a fatal signal ends the process (exit 77) and the loop is resumed after the offending test
     first, total = 0, len(live) * 4
@@ -644,6 +785,8 @@ def classify_failure(sg, cfg, d):
         what, dev = "pending-temporaries", "surrounding-expression-value-lost"
     else:
         what, dev = "call-count", "+".join(sorted(d))
+    # aggregates beyond 64 bytes (stage Z) share one class: a size threshold in the lowering is one root cause, not one per size
+    what = re.sub(r"(struct|union)(\d+)\[MEMORY\]", lambda m: m.group(0) if int(m.group(2)) <= 64 else m.group(1) + "65+[MEMORY]", what)
     sig = "C06|%s|%s|%s%s|%s" % (direction, kind, what, ctx, dev)
     desc = "%s: %s %s -> %s   [%s]" % (direction, sg.cid, " ".join("%s=%s" % kv for kv in sorted(d.items())), dev, proto_text(sg))
     return sig, desc
@@ -778,6 +921,257 @@ def run_garbage(ctx, thunk_o):
     return int(m.group(1)), int(m.group(2))
 
 
+# ---- family R: the result area of a MEMORY-class return must not overlap objects the callee can reach -----------------
+# (psABI 3.2.3: "this storage must not overlap any data visible to the callee through other names than this argument")
+R_SIZES_QUICK = list(range(17, 41)) + [48, 64, 100, 127, 128, 129, 136, 200, 256, 1024]
+R_SIZES_THOROUGH = sorted(set(range(17, 301)) | {511, 512, 513, 1024, 2048, 4096})
+R_KINDS = ["asm", "gcc-O0", "gcc-O2", "gcc-Os", "cc"]
+E_NONE, E_R, E_SRC, E_OTH, E_BL, E_BL2, E_BOTH = range(7)
+# (text of the statement, class of the assigned-to object, modes, helper, body, expected out, expected out2)
+# F1 = rd|wr (one pointer), F0 = gl|wg (pointer saved in a global), FP = the same through a function pointer
+R_FORMS = [
+    ("x = f(&x)", "local", "01", "", "T x = SRC; x = F1(&x); OUT(x);", E_R, E_NONE),
+    ("x = (f(&x))", "local", "01", "", "T x = SRC; x = (F1(&x)); OUT(x);", E_R, E_NONE),
+    ("x = (0, f(&x))", "local", "01", "", "T x = SRC; x = (vp_zero, F1(&x)); OUT(x);", E_R, E_NONE),
+    ("x = c ? f(&x) : x", "local", "01", "", "T x = SRC; x = vp_one ? F1(&x) : x; OUT(x);", E_R, E_NONE),
+    ("y = x = f(&x)", "local", "01", "", "T x = SRC; T y; y = x = F1(&x); OUT(x); OUT2(y);", E_R, E_R),
+    ("T x = f(&x)", "local-initialiser", "1", "", "T x = F1(&x); OUT(x);", E_R, E_NONE),
+    ("x = f(&other, &x)", "local", "0", "", "T o = OTH; T x = SRC; x = al_bl(&o, &x); OUT(x); OUT2(o);", E_BL, E_OTH),
+    ("x = f(&x, &other)", "local", "0", "", "T o = OTH; T x = SRC; x = al_bl(&x, &o); OUT(x); OUT2(o);", E_BL2, E_OTH),
+    ("x = f(&x, &x)", "local", "0", "", "T x = SRC; x = al_bl(&x, &x); OUT(x);", E_BOTH, E_NONE),
+    ("x = f(x) by value", "local", "0", "", "T x = SRC; x = al_bv(x); OUT(x);", E_R, E_NONE),
+    ("s.m = f(&s.m)", "member", "01", "",
+     "struct { long pre; T m; long post; } s; s.pre = 0x1111; s.post = 0x2222; s.m = SRC; s.m = F1(&s.m); OUT(s.m); "
+     "if (s.pre != 0x1111 || s.post != 0x2222) vp_al_guard = 1;", E_R, E_NONE),
+    ("a[i] = f(&a[i])", "element", "01", "", "T a[3]; a[0] = OTH; a[2] = OTH; a[1] = SRC; a[vp_one] = F1(&a[vp_one]); OUT(a[1]); OUT2(a[2]);", E_R, E_OTH),
+    ("a[0] = f(a)", "element", "01", "", "T a[2]; a[0] = SRC; a[1] = OTH; a[0] = F1(a); OUT(a[0]); OUT2(a[1]);", E_R, E_OTH),
+    ("g = f(&g)", "global", "01", "", "vp_al_glob = SRC; vp_al_glob = F1(&vp_al_glob); OUT(vp_al_glob);", E_R, E_NONE),
+    ("static x = f(&x)", "static-local", "01", "", "static T x; x = SRC; x = F1(&x); OUT(x);", E_R, E_NONE),
+    ("*p = f(p)", "dereference", "01", "", "T x = SRC; T *p = &x; *p = F1(p); OUT(x);", E_R, E_NONE),
+    ("q = &x; x = f()", "local", "01", "", "T x = SRC; vp_al_saved = &x; x = F0(); OUT(x);", E_R, E_NONE),
+    ("parameter x = f(&x)", "parameter", "01", "static void FN(h_par_M)(T x) { x = F1(&x); OUT(x); }", "FN(h_par_M)(SRC);", E_R, E_NONE),
+    ("x = (*fp)(&x)", "local", "01", "", "T x = SRC; x = FP(&x); OUT(x);", E_R, E_NONE),
+    ("x = h(&x) where h returns f(p)", "local", "01", "static T FN(h_via_M)(T *p) { return F1(p); }", "T x = SRC; x = FN(h_via_M)(&x); OUT(x);", E_R, E_NONE),
+    ("y = f(&x) (no overlap possible)", "other-local", "01", "", "T x = SRC; T y; y = F1(&x); OUT(y); OUT2(x);", E_R, E_SRC),
+]
+
+
+def r_type(n, tk):
+    if tk == "b": return "typedef struct { unsigned char b[%d]; } T;" % n
+    if tk == "l": return "typedef struct { long a[%d]; } T;" % (n // 8)
+    if tk == "u": return "typedef union { unsigned char b[%d]; long l[%d]; } T;" % (n, n // 8)
+    raise ValueError(tk)
+
+
+def r_jobs(tier):
+    quick = tier == "quick"
+    jobs = []
+    for n in (R_SIZES_QUICK if quick else R_SIZES_THOROUGH):
+        jobs.append((n, "b"))
+        if n % 8 == 0 and (not quick or n <= 64 or n == 256):
+            jobs.append((n, "l"))
+        if n % 8 == 0 and (not quick or n in (24, 128)):
+            jobs.append((n, "u"))
+    return jobs
+
+
+def r_rows():
+    rows = []
+    for fi, (txt, lhs, modes, helper, body, e1, e2) in enumerate(R_FORMS):
+        for m in modes:
+            rows.append((fi, int(m)))
+    return rows
+
+
+def r_build(n, tk):
+    """-> {file name: text} of one (size, type kind) unit of family R."""
+    ty = r_type(n, tk)
+    head = "#define N %d\n%s\n" % (n, ty)
+    u = [twin.PRELUDE, head,
+         "extern unsigned char vp_al_src[], vp_al_oth[], vp_al_out[], vp_al_out2[];",
+         "extern T *vp_al_saved; extern T vp_al_glob; extern volatile int vp_zero, vp_one; extern volatile long vp_al_guard;",
+         "extern T (*vp_al_fp_rd)(T *), (*vp_al_fp_wr)(T *);",
+         "T al_rd(T *), al_bl(T *, T *), al_bv(T), al_gl(void), al_wr(T *), al_wg(void);",
+         "#define SRC (*(T *)vp_al_src)\n#define OTH (*(T *)vp_al_oth)\n#define OUT(x) (*(T *)vp_al_out = (x))\n#define OUT2(x) (*(T *)vp_al_out2 = (x))"]
+    rows, decl = [], []
+    for ri, (fi, m) in enumerate(r_rows()):
+        txt, lhs, modes, helper, body, e1, e2 = R_FORMS[fi]
+        def sub(t):
+            return (t.replace("F1", "al_wr" if m else "al_rd").replace("F0", "al_wg" if m else "al_gl")
+                     .replace("FP", "vp_al_fp_wr" if m else "vp_al_fp_rd").replace("_M", "_%d" % ri))
+        if helper:
+            u.append(sub(helper))
+        u.append("void FN(r_%d)(void) { %s }" % (ri, sub(body)))
+        decl.append("void cc_r_%d(void), ref_r_%d(void);" % (ri, ri))
+        rows.append('{"%s","%s",%d,%d,%d,cc_r_%d,ref_r_%d}' % (txt, lhs, m, e1, e2, ri, ri))
+    # C callees: for the plain byte-array struct the result object is accessed by name only (its address is never taken), which
+    # lets an optimising compiler build it directly in the caller-provided result area (gcc -O2/-Os: tree-nrv)
+    if tk == "b":
+        D, SP, AO, SV, pre = "r.b[i]", "p->b", "o->b", "v.b", "T r;"
+    else:
+        D, SP, AO, SV, pre = "d[i]", "((unsigned char *)p)", "((unsigned char *)o)", "((unsigned char *)&v)", "T r; unsigned char *d = (unsigned char *)&r;"
+    k = [head, "#define KC_(a,b) a##b\n#define KC(a,b) KC_(a,b)\n#define K(x) KC(KP,x)\nextern T *vp_al_saved;",
+         "T K(rd)(T *p) { %s\n  for (int i = 0; i < N; i++) %s = 0x5A;\n  for (int i = 0; i < N; i++) %s = %s[N - 1 - i] ^ 0x33;\n  return r; }" % (pre, D, D, SP),
+         "T K(bl)(T *o, T *p) { %s\n  for (int i = 0; i < N; i++) %s = 0x5A;\n  for (int i = 0; i < N; i++) %s = %s[i] + %s[N - 1 - i];\n  return r; }" % (pre, D, D, AO, SP),
+         "T K(bv)(T v) { %s\n  for (int i = 0; i < N; i++) %s = 0x5A;\n  for (int i = 0; i < N; i++) %s = %s[N - 1 - i] ^ 0x33;\n  return r; }" % (pre, D, D, SV),
+         "T K(gl)(void) { return K(rd)(vp_al_saved); }",
+         "T K(wr)(T *p) { %s\n  for (int i = 0; i < N; i++) %s = 3 * i + 13;\n  for (int i = 0; i < N; i++) %s[i] = 0xDD;\n  return r; }" % (pre, D, SP),
+         "T K(wg)(void) { return K(wr)(vp_al_saved); }"]
+    a = ["# hand-written callees: the whole result area (%rdi) is written first, the operands are read afterwards", "    .text"]
+    for f in ("rd", "bl", "bv", "gl", "wr", "wg"):
+        a.append("    .globl al_%s\nal_%s: jmp *vp_al_fn_%s(%%rip)" % (f, f, f))
+    fill = "    mov %rdi, %rax\n    xor %ecx, %ecx\n1:  movb $0x5A, (%rdi,%rcx)\n    inc %rcx\n    cmp $N, %rcx\n    jb 1b\n".replace("$N", "$%d" % n)
+    rev = ("    lea %d(%%rsi), %%r8\n    xor %%ecx, %%ecx\n2:  mov (%%r8), %%dl\n    xor $0x33, %%dl\n    mov %%dl, (%%rdi,%%rcx)\n    dec %%r8\n    inc %%rcx\n"
+           "    cmp $%d, %%rcx\n    jb 2b\n    ret\n" % (n - 1, n))
+    a.append("    .globl ka_rd, ka_bv, ka_gl, ka_bl, ka_wr, ka_wg")
+    a.append("ka_gl:\n    mov vp_al_saved(%rip), %rsi\n    jmp ka_rd\nka_bv:\n    lea 8(%rsp), %rsi\nka_rd:\n" + fill + rev)
+    a.append("ka_bl:\n" + fill + ("    lea %d(%%rdx), %%r8\n    xor %%ecx, %%ecx\n2:  mov (%%r8), %%dl\n    add (%%rsi,%%rcx), %%dl\n    mov %%dl, (%%rdi,%%rcx)\n"
+                                  "    dec %%r8\n    inc %%rcx\n    cmp $%d, %%rcx\n    jb 2b\n    ret\n" % (n - 1, n)))
+    a.append("ka_wg:\n    mov vp_al_saved(%%rip), %%rsi\nka_wr:\n    mov %%rdi, %%rax\n    xor %%ecx, %%ecx\n1:  lea 13(%%rcx,%%rcx,2), %%edx\n    mov %%dl, (%%rdi,%%rcx)\n"
+             "    inc %%rcx\n    cmp $%d, %%rcx\n    jb 1b\n    xor %%ecx, %%ecx\n2:  movb $0xDD, (%%rsi,%%rcx)\n    inc %%rcx\n    cmp $%d, %%rcx\n    jb 2b\n    ret\n" % (n, n))
+    a.append('    .section .note.GNU-stack,"",@progbits')
+    with open(os.path.join(HARNESS, "c06_alias_drv.c")) as f:
+        drv = f.read()
+    d = [head, "struct al_row { const char *form, *lhs; int mode, e1, e2; void (*cc)(void), (*ref)(void); };"] + decl
+    d.append("static const struct al_row ROWS[] = {\n%s};\n#define NROWS %d" % (",\n".join(rows), len(rows)))
+    return {"al_u.c": "\n".join(u) + "\n", "al_k.c": "\n".join(k) + "\n", "al_a.S": "\n".join(a) + "\n", "al_d.c": "\n".join(d) + "\n" + drv}
+
+
+R_GCC = ["gcc", "-fno-strict-aliasing", "-w", "-std=gnu11", "-fno-builtin", "-fno-pie"]
+R_GCC_K = ["gcc", "-fno-strict-aliasing", "-w", "-std=gnu11", "-fno-builtin", "-fpie"]     # gcc 12 -Os builds the result in place only with -fpie
+R_REPLAY = r"""# family R, one (size, type) unit; exit 1 iff test %(idx)d (chibicc-compiled caller) still fails while the gcc-compiled caller passes
+$CHIBICC -DPFX=cc_ -c -o u_cc.o al_u.c || exit %(ccfail)d
+$CHIBICC -DKP=kc_ -c -o k_cc.o al_k.c || exit %(ccfail)d
+gcc -O0 -fno-strict-aliasing -w -std=gnu11 -fno-builtin -fno-pie -DPFX=ref_ -c -o u_ref.o al_u.c || exit 0
+for o in 0 2 s; do gcc -O$o -fno-strict-aliasing -w -std=gnu11 -fno-builtin -fpie -DKP=k${o}_ -c -o k_$o.o al_k.c || exit 0; done
+gcc -c -o a.o al_a.S || exit 0
+gcc -O1 -w -std=gnu11 -fno-pie -no-pie -o drv al_d.c u_cc.o k_cc.o u_ref.o k_0.o k_2.o k_s.o a.o -Wl,-z,noexecstack || exit 0
+./drv %(idx)d 2 > out.txt; cat out.txt
+grep -q '^A %(ref)d .* ok$' out.txt || exit 0
+grep -q '^A %(idx)d .* ok$' out.txt && exit 0
+grep -q '^[AC] %(idx)d ' out.txt && exit 1
+exit 0
+"""
+
+
+def _run_alias(a):
+    chibicc, wd, n, tk = a
+    os.makedirs(wd, exist_ok=True)
+    res = {"n": n, "tk": tk, "harness": None, "ccfail": None, "lines": [], "crashes": [], "sens": 0, "tests": 0}
+    files = r_build(n, tk)
+    for name, text in files.items():
+        with open(os.path.join(wd, name), "w") as f:
+            f.write(text)
+    _C.chibicc = chibicc
+    for src, obj, fl in (("al_u.c", "u_cc.o", "-DPFX=cc_"), ("al_k.c", "k_cc.o", "-DKP=kc_")):
+        for attempt in range(3):
+            ok, stage, st, err = twin.cc_compile(_C, os.path.join(wd, src), os.path.join(wd, obj), [fl], cwd=wd, timeout=600)
+            if ok or st not in (-15, -9):
+                break
+        if not ok and st in (-15, -9, "timeout"):
+            res["harness"] = "chibicc %s on %s: status %s (killed from outside / machine overloaded)" % (stage, src, st); return res
+        if not ok:
+            res["ccfail"] = (src, stage, st, (err.strip().splitlines() or [""])[-1][:300])
+            return res
+    cmds = [R_GCC + ["-O0", "-DPFX=ref_", "-c", "-o", "u_ref.o", "al_u.c"]]
+    cmds += [R_GCC_K + ["-O" + o, "-DKP=k%s_" % o, "-c", "-o", "k_%s.o" % o, "al_k.c"] for o in ("0", "2", "s")]
+    cmds += [["gcc", "-c", "-o", "a.o", "al_a.S"],
+             twin.GCC_DRV + ["-o", "drv", "al_d.c", "u_cc.o", "k_cc.o", "u_ref.o", "k_0.o", "k_2.o", "k_s.o", "a.o", "-no-pie", "-Wl,-z,noexecstack"]]
+    for c in cmds:
+        st, o, e = _tool(c, wd, 900)
+        if st != 0:
+            res["harness"] = "%s: %s %s" % (" ".join(c[:8]), st, e[-800:]); return res
+    total = len(R_KINDS) * len(r_rows()) * 2
+    first = 0
+    while first < total:
+        st, out, err = core.run_limited([os.path.join(wd, "drv"), str(first)], cwd=wd, timeout=900)
+        done = False
+        crash = None
+        for line in out.splitlines():
+            w = line.split()
+            if not w: continue
+            if w[0] == "A": res["lines"].append((int(w[1]), int(w[2]), int(w[3]), int(w[4]), w[5])); res["tests"] += 1
+            elif w[0] == "V": res["sens"] = int(w[1].split("=")[1], 16)
+            elif w[0] == "C": crash = (int(w[1]), int(w[2]))
+            elif w[0] == "S": done = True
+        if done and st == 0:
+            break
+        if crash:
+            idx = crash[0]
+            res["lines"].append((idx, idx // 2 // len(r_rows()), idx // 2 % len(r_rows()), idx % 2, "crash:" + SIGNAME.get(str(crash[1]), str(crash[1]))))
+            res["tests"] += 1
+            first = idx + 1
+            continue
+        res["harness"] = "alias driver died without a crash record: status=%s first=%d %s" % (st, first, err[-300:])
+        return res
+    shutil.rmtree(wd, ignore_errors=True)
+    return res
+
+
+def run_alias(ctx):
+    """-> (evaluations, judged, oracle disagreements).  Violations are filed here."""
+    jobs = r_jobs(ctx.tier)
+    rows = r_rows()
+    args = [(ctx.chibicc, os.path.join(ctx.work, "al_%d%s" % (n, tk)), n, tk) for n, tk in jobs]
+    # the big units first (they take longest)
+    args.sort(key=lambda a: -a[2])
+    evals = judged = odis = 0
+    sens_all = None
+    sens_any = 0
+    for res in core.pmap(_run_alias, args):
+        n, tk = res["n"], res["tk"]
+        if res["harness"]:
+            raise core.HarnessError("family R size %d%s: %s" % (n, tk, res["harness"]))
+        if res["ccfail"]:
+            src, stage, st, err = res["ccfail"]
+            files = r_build(n, tk)
+            ctx.violation("C06|compile|fixed|ret:MEMORY-class,return-area-overlap-unit|%s-fails:%s" % (stage, st),
+                          "valid unit (%s, size %d, %s): chibicc %s stage fails (%s): %s" % (src, n, r_type(n, tk), stage, st, err),
+                          files=files, replay="$CHIBICC -DPFX=cc_ -DKP=kc_ -c -o x.o %s && exit 0; exit 1" % src)
+            continue
+        if not res["sens"] & 3 == 3:
+            raise core.HarnessError("family R size %d%s vacuous: the asm callee is not sensitive to an overlapping result area (sens=0x%x)" % (n, tk, res["sens"]))
+        sens_all = res["sens"] if sens_all is None else sens_all & res["sens"]
+        sens_any |= res["sens"]
+        by = dict((l[0], l) for l in res["lines"])
+        if res["tests"] != len(R_KINDS) * len(rows) * 2:
+            raise core.HarnessError("family R size %d%s: %d tests run, %d expected" % (n, tk, res["tests"], len(R_KINDS) * len(rows) * 2))
+        for idx in sorted(by):
+            if idx % 2:
+                continue
+            _, kind, row, _, verdict = by[idx]
+            ref = by.get(idx + 1)
+            evals += 2
+            fi, m = rows[row]
+            txt, lhs = R_FORMS[fi][0], R_FORMS[fi][1]
+            if ref is None or ref[4] != "ok":
+                odis += 1                   # gcc 12 itself receives `T x = f(&x)` directly in x: that form is not judged
+                ctx.sample({"oracle_disagreement": "family R: gcc-compiled caller differs from the model", "size": n, "type": tk, "form": txt,
+                            "callee": R_KINDS[kind], "mode": m, "gcc": ref and ref[4]}, limit=10)
+                continue
+            judged += 1
+            if verdict == "ok":
+                continue
+            dev = ("crash:" + verdict.split(":", 1)[1]) if verdict.startswith("crash") else \
+                  {"out": "assigned-object-differs", "out2": "other-object-differs", "guar": "neighbouring-object-differs"}[verdict[:4].rstrip("@")]
+            # a failure against the chibicc-built callee only is a callee-side defect (cc->cc), not an overlap of the result area
+            sig = "C06|%s|fixed|ret:MEMORY-class,assigned-to:%s|%s" % ("cc->cc" if kind == 4 else "cc->any", lhs, dev)
+            desc = ("chibicc caller -> %s callee (%s): `%s` with %s (size %d): %s [chibicc-compiled caller]; the gcc-compiled caller and the model agree. "
+                    "The callee %s" % (R_KINDS[kind], "result written first, operands read afterwards" if m == 0 else "result built, then the object behind the pointer overwritten",
+                                       txt, r_type(n, tk), n, verdict,
+                                       "may assume that the result area does not overlap *p (psABI 3.2.3)"))
+            if sig in ctx.violations or any(core.fnmatch.fnmatchcase(sig, p) for p in ctx.findings):
+                ctx.violation(sig, desc)
+                continue
+            ctx.violation(sig, desc, files=r_build(n, tk), replay=R_REPLAY % {"idx": idx, "ref": idx + 1, "ccfail": 0})
+    if judged == 0 or odis * 10 > judged:
+        raise core.HarnessError("family R: %d cases judged, %d where the gcc-compiled caller differs from the model" % (judged, odis))
+    ctx.cover(return_area_overlap_units=len(jobs), return_area_overlap_forms=len(R_FORMS), return_area_overlap_evaluations=evals,
+              return_area_overlap_judged=judged, return_area_overlap_gcc_caller_differs_from_model_not_judged=odis,
+              return_area_overlap_sensitive_callees=",".join("%s:%s" % (R_KINDS[k], "rd" if b == 0 else "wr") for k in range(5) for b in range(2) if sens_any >> (2 * k + b) & 1))
+    return evals, judged, odis
+
+
 def run(ctx):
     thunk_o = os.path.join(ctx.work, "c06_thunk.o")
     core.sh(["gcc", "-c", "-o", thunk_o, os.path.join(HARNESS, "c06_thunk.S")], check=True)
@@ -786,6 +1180,9 @@ def run(ctx):
     only = os.environ.get("C06_STAGES")
     if only:
         sigs = [s for s in sigs if s.stage in only.split(",")]
+    rev = rjudged = rdis = 0
+    if not only or "R" in only.split(","):
+        rev, rjudged, rdis = run_alias(ctx)
     # shard: signatures with many parameters are spread evenly; VERIF_SEED only rotates the assignment
     nb = (len(sigs) + BATCH - 1) // BATCH
     rot = ctx.seed % nb if nb else 0
@@ -837,6 +1234,13 @@ def run(ctx):
                 unit, stubs, drv = build_batch([sg])
                 ctx.violation(sig, desc, files={"unit.c": unit, "stubs.S": stubs, "driver.c": drv, "c06_thunk.S": thunk_src},
                               replay=REPLAY % {"ccfail": 0, "lin": cfg})
+    n_item_count = len(n_items(shape_reps(enum_types(ctx.tier))))
+    # vacuity guard of N: some named aggregate of at most 8 bytes, of 9..16 bytes and of class MEMORY, in registers and with va_args of both files behind it
+    if not only or "N" in only.split(","):
+        small = sum(1 for sg in sigs if sg.stage == "N" and any(a[0] in "su" and abi.layout(a)[0] <= 8 and abi.arg_need(a) for a in sg.args[:sg.nnamed]))
+        if small == 0 or stage_counts.get("N", 0) < 100:
+            raise core.HarnessError("stage N degenerate: %d signatures, %d with a named aggregate of <= 8 bytes in a register" % (stage_counts.get("N", 0), small))
+        ctx.cover(named_small_aggregate_in_register_signatures=small)
     # vacuity guard of VS/WS: named parameters on the stack ending off the eightbyte grid, followed by a va_arg served from memory
     offgrid = resid = 0
     if not only or "VS" in only.split(","):
@@ -860,9 +1264,9 @@ def run(ctx):
         raise core.HarnessError("driver ran %d tests for %d compiled signatures" % (tests, nsig))
     if ctx.exhaustive and nsig + nrejected != len(sigs):
         raise core.HarnessError("%d signatures run + %d rejected by chibicc != %d enumerated" % (nsig, nrejected, len(sigs)))
-    if nsig == 0:
+    if nsig == 0 and not (only and only == "R"):
         raise core.HarnessError("no signature was executed")
-    ctx.cover(evaluations=tests + gev, signatures=len(sigs), signatures_run=nsig, distinct_nontrivial=nsig + gdist,
+    ctx.cover(evaluations=tests + gev + rev, signatures=len(sigs), signatures_run=nsig, distinct_nontrivial=nsig + gdist + rjudged // len(R_KINDS),
               aggregate_types=ntypes, eightbyte_shapes=nreps, failing_signature_configs=len(failing), crashes=ncrash, rejected_by_chibicc=nrejected,
               undefined_bit_evaluations=gev, per_stage=stage_counts, oracle_disagreements=odis,
               rule="one case = one signature (return type, parameter types, fixed/variadic+named count, caller context) linked in 3 "
@@ -881,11 +1285,22 @@ def run(ctx):
                      "x unnamed fillers exhausting {both%s,no} register files x va_arg probe in {int,long,double,long double,pointer,s(i,i,i),s(f,f,f),s(l,d),s(l,l,l),struct{char[21]}} "
                      "+ trailing long,double, + hidden-return-pointer variants; M: the same aggregates in fixed signatures, on the stack in front of further stack arguments and as return type; WS: the VS lists with the va_list handed to the other/same compiler's consumer; X: call nested under 1-3 pending long/double temporaries on either side "
                      "and with argument 0/probe/last produced by an inner call; K: callee declared without prototype at the call site; "
-                     "W: va_list handed to a function built by the other compiler; G: narrow return values / parameters with noise in undefined bits"
+                     "W: va_list handed to a function built by the other compiler; G: narrow return values / parameters with noise in undefined bits; "
+                     "N: variadic callees with a by-value aggregate among the NAMED parameters: %d items (every (size, classes) shape, struct{char[n]} n=1..16, SSE / mixed / union forms, "
+                     "4 MEMORY, 2 x87) x %d named prefixes x %d named suffixes x 3 tails of 19-21 va_args (int, long, pointer, double, 8/16-byte INTEGER/SSE/mixed structs drawn while registers "
+                     "remain and after exhaustion, long double, MEMORY structs) + hidden return pointer + va_list forwarded to the other/same compiler (%d signatures); "
+                     "Z: aggregates of %s bytes (struct{char[n]}, struct{long[n/8]}, union of both) by value / returned (rax = hidden pointer checked) / on the stack between stack "
+                     "arguments / result of an inner call / va_arg / named parameter of a variadic callee (%d signatures); "
+                     "R: return area vs objects visible to the callee: %d caller forms x 2 callee behaviours x %d (size, type) units (sizes %s) x 5 callee builds "
+                     "(asm result-first, gcc -O0/-O2/-Os, chibicc) x 2 caller compilers"
                      % (2 if ctx.tier == "quick" else 4, len(NAMED), len(BIG), len(X87), len(PRIMS) + nreps + 5, len(vs_named_lists(ctx.tier)),
-                        " (quick: the first two such modes per item)" if ctx.tier == "quick" else "", len(VS_MEMORY + VS_SMALL + VS_SCALAR), "" if ctx.tier == "quick" else ",double,struct{char[3]}+int", "" if ctx.tier == "quick" else ",GP only,SSE only"),
+                        " (quick: the first two such modes per item)" if ctx.tier == "quick" else "", len(VS_MEMORY + VS_SMALL + VS_SCALAR), "" if ctx.tier == "quick" else ",double,struct{char[3]}+int", "" if ctx.tier == "quick" else ",GP only,SSE only",
+                        n_item_count, 4 if ctx.tier == "quick" else len(N_PRE), 3 if ctx.tier == "quick" else len(N_POST), stage_counts.get("N", 0),
+                        ",".join(map(str, Z_SIZES_QUICK)) if ctx.tier == "quick" else "41..300,511..513,1000,1023..1025,2047..2049,4095,4096", stage_counts.get("Z", 0),
+                        len(R_FORMS), len(r_jobs(ctx.tier)), "17..40,48,64,100,127,128,129,136,200,256,1024" if ctx.tier == "quick" else "17..300,511..513,1024,2048,4096"),
+              named_aggregate_items=n_item_count, large_aggregate_sizes=len(Z_SIZES_QUICK if ctx.tier == "quick" else Z_SIZES_THOROUGH), large_aggregate_max_size=4096,
               named_stack_lists=len(vs_named_lists(ctx.tier)), named_stack_end_off_grid_signatures=offgrid, named_stack_item_sizes="1..40 (every residue mod 8, last and non-last)")
-    for sg in (sigs[0], sigs[len(sigs) // 3], sigs[2 * len(sigs) // 3], sigs[-1]):
+    for sg in (sigs[0], sigs[len(sigs) // 3], sigs[2 * len(sigs) // 3], sigs[-1]) if sigs else ():
         ctx.sample({"signature": sg.cid, "prototype": proto_text(sg)})
     ctx.assume("gcc 12 -O0 is ABI-conforming; the gcc->gcc pairing of every signature passes (enforced)")
     ctx.assume("padding bytes and bytes 10..15 of a long double are not part of the value and are not compared")
